@@ -2,6 +2,7 @@
 import itertools
 import json
 import os
+import random
 
 from vf import common, fmt, gen
 from vf.build import build
@@ -135,11 +136,16 @@ def e2e(ck, paths, tier):
 
     def work(job):
         idx, kind, bt, recs, f, w, vals = job
-        args = []
+        groups = []
         if w:
-            args += ["--type", w]
+            groups.append(["--type", w])
         for k, v in vals.items():
-            args += ["--" + k, common.fnum(v)]
+            groups.append(["--" + k, common.fnum(v)])
+        # the order of options on the command line must not matter
+        random.Random(hash((idx, w, tuple(sorted(vals.items())))) & 0xffffff).shuffle(groups)
+        args = [x for g in groups for x in g]
+        if w and args[0] != "--type":
+            ck.count("e2e_runs_with_penalty_options_before_type")
         log = ck.tmp(".log")
         out = ck.tmp(".out")
         res = common.kalign_cli(paths, [f], args=args, nthreads=ck.rng.choice([1, 2, 4]), out=out, verif_log=log,
